@@ -597,6 +597,20 @@ func (c *Check) setDecoders(rule string) {
 				}
 				c.require(okE && nret > 0, rule, s.fn, "whole field consumed", p.Pos(fn.Pos()),
 					fmt.Sprintf("for a field of k*%d octets the element loop ends only when nothing is left (no element is dropped)", s.step))
+				// and a set helper (value, error) has no other way to fail: a
+				// field of k*step octets is accepted
+				if fn.Signature.Results().Len() == 2 && len(fn.Params) == 1 {
+					okAcc := len(a.Returns) > 0
+					for _, r := range a.Returns {
+						if !r.Results[len(r.Results)-1].IsNil() {
+							if v, isC := r.State.nonNil(r.Results[len(r.Results)-1]).IsConst(); !isC || v != 0 {
+								okAcc = false
+							}
+						}
+					}
+					c.require(okAcc, rule, s.fn, "well-formed field accepted", p.Pos(fn.Pos()),
+						fmt.Sprintf("a field of k*%d octets (k >= 1) is decoded without error: the helper's own length test agrees with its stride", s.step))
+				}
 			}
 		}
 	}
